@@ -22,6 +22,11 @@ GROUP = {
           slice=r"(paths\.sort_unstable\(\);\s*for path in &paths \{)", slice_count=1, slice_template="/* anchor: {EXPR} */\n"),
         U("anchor:empty match is an error", LD, LI, no_canary=True,
           slice=r"(if paths\.is_empty\(\) \{\s*return Err\()", slice_count=1, slice_template="/* anchor: {EXPR} */\n"),
+        # the stack of files being loaded (cycle check, F11): a file is pushed right after the check and popped once, after its last entry, on the way out
+        U("anchor:cycle check then push", LD, LI, no_canary=True,
+          slice=r"(if ancestors\.iter\(\)\.any\(\|x\| x\.as_path\(\) == path\.as_ref\(\)\) \{\s*return Err\(LoadError::RecursiveInclude\(path\.into_owned\(\)\)\.into\(\)\);\s*\}\s*ancestors\.push\(path\.clone\(\)\.into_owned\(\)\);)", slice_count=1, slice_template="/* anchor: {EXPR} */\n"),
+        U("anchor:pop after the last entry", LD, LI, no_canary=True,
+          slice=r"(\}\?;\s*\}\s*ancestors\.pop\(\);\s*Ok\(\(\)\)\s*\})", slice_count=1, slice_template="/* anchor: {EXPR} */\n"),
         U("anchor:other entries go to the callback", LD, LI, no_canary=True,
           slice=r"(_ => callback\(&path, &ctx, &entry\),)", slice_count=1, slice_template="/* anchor: {EXPR} */\n"),
         # ---- which path an `include` line means: relative to the INCLUDING file (slice of load_impl over an assumed model of std::path)
